@@ -171,6 +171,7 @@ func checkC08(c *Ctx, r *Report) {
 	// C08.c config sections copied
 	checkEnumMembersTyped(c, r, "C08.b")
 	checkInfoCopied(c, r, "C08.c", g30, g31)
+	checkInfoSectionsIndependent(c, r, "C08.c", g30, g31)
 	// ... and the configuration they are copied from is the file as written (shared with C20.a)
 	checkConfigDecodedAsRead(c, r, "C08.c")
 	// security/model/controller sub-generators are on every success path
@@ -699,4 +700,56 @@ func checkOrderedJSONIsEncoderOutput(c *Ctx, r *Report, clause string) {
 		viol = "no success return of ForceOrderedJSON yields a value"
 	}
 	r.add(clause, "fieldflow", fo+":returns-encoder-output", "the re-ordered document is the JSON encoder's output, untouched", []string{fo}, sites, viol)
+}
+
+// checkInfoSectionsIndependent: info.contact and info.license are optional and independent: the
+// copy of one is not conditional on the other being present (an early `return` / `else` taken
+// when the license is missing must not skip the contact, and vice versa).
+func checkInfoSectionsIndependent(c *Ctx, r *Report, clause string, gens ...string) {
+	w := c.W
+	for _, g := range gens {
+		fi := need(c, r, clause, g)
+		if fi == nil {
+			continue
+		}
+		viol := ""
+		var sites []string
+		n := 0
+		allInstrs(fi.SSA, true, func(_ *ssa.Function, _ *ssa.BasicBlock, _ int, ins ssa.Instruction) {
+			st, ok := ins.(*ssa.Store)
+			if !ok {
+				return
+			}
+			fa, ok := st.Addr.(*ssa.FieldAddr)
+			if !ok {
+				return
+			}
+			fv := structFieldVar(fa.X.Type(), fa.Field)
+			if fv == nil || (fv.Name() != "Contact" && fv.Name() != "License") {
+				return
+			}
+			if owner := types.TypeString(fa.X.Type(), nil); !strings.HasSuffix(strings.TrimPrefix(owner, "*"), ".Info") {
+				return
+			}
+			if k, isConst := st.Val.(*ssa.Const); isConst && k.IsNil() {
+				return
+			}
+			n++
+			sites = append(sites, w.pos(st.Pos()))
+			other := "License"
+			if fv.Name() == "License" {
+				other = "Contact"
+			}
+			for _, f := range dominatingFacts(st.Block()) {
+				a := sliceOf(f.Cond)
+				if a.hasFieldNamed(other) && !a.hasFieldNamed(fv.Name()) {
+					viol = fmt.Sprintf("%s: info.%s is copied into the document only on a path that tested info.%s: a configuration with the one and without the other loses a section it configured", w.pos(st.Pos()), strings.ToLower(fv.Name()), strings.ToLower(other))
+				}
+			}
+		})
+		if n < 2 {
+			viol = fmt.Sprintf("expected the copies of info.contact and info.license in %s, found %d", g, n)
+		}
+		r.add(clause, "guardedby", g+":info-sections-independent", "contact and license are copied independently of each other", []string{g}, sites, viol)
+	}
 }
